@@ -571,7 +571,7 @@ package template
 //@   ensures spec: r == seqeq(a.name, b.name)
 
 //@ func join(a, b context, node parse.Node, nodeName string) (r context)
-//@   serves C01 C04 C05 C08
+//@   serves C01 C02 C04 C05 C08
 //@   option modifies map[seq]bool#dom map[seq]bool#val
 //@   decreases nudgeable(a.state) + nudgeable(b.state)
 //@   ensures erra: a.state == stateError ==> same(r, a)
